@@ -160,6 +160,10 @@ func libraryFiles(dir string) ([]string, error) {
 	return out, nil
 }
 
+// Hoist switches the hoisting of receives inside larger statements (see below) on; the driver turns it off and
+// instruments a fresh copy again if a tree does not build with it.
+var Hoist = true
+
 // Library instruments the root package of the scratch copy in dir and the library packages
 // below it.
 func Library(dir string) (*Report, error) {
@@ -397,6 +401,23 @@ func Library(dir string) (*Report, error) {
 				}
 			}
 			safe := si >= 0 && !hasChanOp(u.X)
+			if safe {
+				// the operand may name a variable that the statement's own init clause declares: then it cannot move in front of it
+				var init ast.Stmt
+				switch st := stack[si].(type) {
+				case *ast.IfStmt:
+					init = st.Init
+				case *ast.SwitchStmt:
+					init = st.Init
+				case *ast.TypeSwitchStmt:
+					init = st.Init
+				case *ast.ForStmt:
+					init = st.Init
+				}
+				if init != nil && !(u.Pos() >= init.Pos() && u.End() <= init.End()) {
+					safe = false
+				}
+			}
 			for i := si; safe && i < len(stack)-1; i++ {
 				child := stack[i+1]
 				switch par := stack[i].(type) {
@@ -420,7 +441,7 @@ func Library(dir string) (*Report, error) {
 					}
 				}
 			}
-			if !safe {
+			if !safe || !Hoist {
 				rep.Unmodelled = append(rep.Unmodelled, fmt.Sprintf("%s:%d receive evaluated conditionally inside a larger statement (it may wait while its task holds the token)", name, fset.Position(u.Pos()).Line))
 				return true
 			}
